@@ -265,6 +265,28 @@ class ModelMixin(object):
         if total is not None and not d.entries:
             yield st, total(key)
             return
+        if not d.present and total is None and all(isinstance(k, str) for k in d.entries) and \
+                ((isinstance(key, Sym) and key.kind in ("str", "dyn"))):
+            # a constant table looked up with a run-time key
+            kt = self.to_dyn(st, key)
+            from .dyn import hashable
+            for s1, h in self.branch(st, hashable(kt)):
+                if not h:
+                    yield self.raise_(s1, "TypeError", "unhashable type")
+                    continue
+                hit = z3.Or(*[kt == smt.Val.S(z3.StringVal(k)) for k in d.entries]) if d.entries else z3.BoolVal(False)
+                for s2, found in self.branch(s1, hit):
+                    if found:
+                        out = None
+                        for k, v in reversed(list(d.entries.items())):
+                            tv = self.to_dyn(s2, v)
+                            out = tv if out is None else z3.If(kt == smt.Val.S(z3.StringVal(k)), tv, out)
+                        yield s2, Sym("dyn", out)
+                    elif strict:
+                        yield self.raise_(s2, "KeyError", "missing key")
+                    else:
+                        yield s2, default
+            return
         raise Unsupported("dict lookup with symbolic key")
 
     def set_item(self, st, o, idx, v):
